@@ -448,6 +448,7 @@ func (fv *FuncVC) assignField(baseExpr ast.Expr, bt types.Type, path []int, v Va
 		h := fv.declFieldHeap(ss, f.Name(), fs)
 		fv.guardedAccess(st, p.Elem(), f.Name(), base, text)
 		if len(path) == 1 {
+			fv.guardedStore(st, p.Elem(), f.Name(), base, Val{sx("select", fv.getHeap(st, h), base.T), fs, f.Type()}, v, text)
 			fv.setHeap(st, h, sx("store", fv.getHeap(st, h), base.T, v.T))
 			return
 		}
@@ -705,14 +706,20 @@ func (fv *FuncVC) frameObligations(st *State, where string) {
 	}
 	sort.Strings(names)
 	for _, h := range names {
-		if h == "alloc" || whole[h] || strings.HasPrefix(h, "Held$") || (strings.HasPrefix(h, "G$") && fv.ownGhost(h)) {
+		if h == "alloc" || whole[h] || (strings.HasPrefix(h, "G$") && fv.ownGhost(h)) {
 			continue
+		}
+		if fv.isGuardedHeap(h) {
+			continue // shared state protected by a mutex: unstable by nature, never framed
 		}
 		now, before := fv.getHeap(st, h), fv.getHeap(fv.entry, h)
 		if now == before {
 			continue
 		}
 		conds := []string{sx("select", allocEntry, "r")}
+		if strings.HasPrefix(h, "G$") || strings.HasPrefix(h, "Held$") {
+			conds = nil // ghost state is not allocated: every entry counts
+		}
 		for _, r := range byHeap[h] {
 			conds = append(conds, mkNot(mkEq("r", r)))
 		}
@@ -745,6 +752,15 @@ func (fv *FuncVC) applyGhostSets(fc *FuncContract, st *State, sc *SpecScope) {
 func (fv *FuncVC) ownGhost(h string) bool {
 	for _, gs := range fv.fi.Contract.GhostSets {
 		if "G$"+gs[0] == h {
+			return true
+		}
+	}
+	return false
+}
+
+func (fv *FuncVC) isGuardedHeap(h string) bool {
+	for _, g := range fv.w.Guarded {
+		if h == "F$"+sanitize(g.Struct)+"."+g.Field {
 			return true
 		}
 	}
